@@ -142,16 +142,55 @@ pub fn proto_from(name: &[u8], level: u8) -> Option<Protocol> {
     }
 }
 
+// Equal strings inside one packet (a user-property key used twice, the same filter subscribed
+// twice) are sometimes handed over as clones of ONE shared value, as applications that intern
+// their strings do: reference counts above one, pointer-equal fields.
+thread_local! {
+    static LAST_STR: std::cell::RefCell<Option<Arc<String>>> = std::cell::RefCell::new(None);
+    static LAST_FILTER: std::cell::RefCell<Option<TopicFilter>> = std::cell::RefCell::new(None);
+    static LAST_NAME: std::cell::RefCell<Option<TopicName>> = std::cell::RefCell::new(None);
+}
+
 fn astr(b: &[u8]) -> Option<Arc<String>> {
-    Some(Arc::new(String::from_utf8(b.to_vec()).ok()?))
+    LAST_STR.with(|l| {
+        let mut l = l.borrow_mut();
+        if let Some(prev) = l.as_ref() {
+            if prev.as_bytes() == b && b.len() % 2 == 1 {
+                return Some(prev.clone());
+            }
+        }
+        let a = Arc::new(String::from_utf8(b.to_vec()).ok()?);
+        *l = Some(a.clone());
+        Some(a)
+    })
 }
 
 fn tname(b: &[u8]) -> Option<TopicName> {
-    TopicName::try_from(String::from_utf8(b.to_vec()).ok()?).ok()
+    LAST_NAME.with(|l| {
+        let mut l = l.borrow_mut();
+        if let Some(prev) = l.as_ref() {
+            if prev.as_bytes() == b && b.len() % 2 == 1 {
+                return Some(prev.clone());
+            }
+        }
+        let t = TopicName::try_from(String::from_utf8(b.to_vec()).ok()?).ok()?;
+        *l = Some(t.clone());
+        Some(t)
+    })
 }
 
 fn tfilter(b: &[u8]) -> Option<TopicFilter> {
-    TopicFilter::try_from(String::from_utf8(b.to_vec()).ok()?).ok()
+    LAST_FILTER.with(|l| {
+        let mut l = l.borrow_mut();
+        if let Some(prev) = l.as_ref() {
+            if prev.as_bytes() == b && b.len() % 2 == 1 {
+                return Some(prev.clone());
+            }
+        }
+        let t = TopicFilter::try_from(String::from_utf8(b.to_vec()).ok()?).ok()?;
+        *l = Some(t.clone());
+        Some(t)
+    })
 }
 
 fn qospid(qos: u8, pid: Option<u16>) -> Option<QosPid> {
@@ -233,6 +272,22 @@ pub fn v3_from_lib(p: &v3::Packet) -> RP {
     }
 }
 
+/// Binary fields are handed to the crate the way applications hold them: sometimes as an owned
+/// buffer, sometimes as a window into a larger shared buffer (a `Bytes` sub-slice at a non-zero,
+/// odd offset with spare bytes behind it). Chosen from the content, so a case replays identically.
+fn bytes_of(v: &[u8]) -> Bytes {
+    let h = v.len().wrapping_mul(31) ^ v.first().copied().unwrap_or(0) as usize;
+    if h % 3 == 0 {
+        let mut big = Vec::with_capacity(v.len() + 12);
+        big.extend_from_slice(b"\xde\xad\xbe\xef\x01");
+        big.extend_from_slice(v);
+        big.extend_from_slice(b"TRAILER");
+        Bytes::from(big).slice(5..5 + v.len())
+    } else {
+        Bytes::from(v.to_vec())
+    }
+}
+
 pub fn v3_to_lib(p: &RP) -> Option<v3::Packet> {
     Some(match p {
         RP::Connect { name, level, clean, keep_alive, client_id, will, username, password, props } => {
@@ -250,7 +305,7 @@ pub fn v3_to_lib(p: &RP) -> Option<v3::Packet> {
                         qos: qos_from(w.qos)?,
                         retain: w.retain,
                         topic_name: tname(&w.topic)?,
-                        message: Bytes::from(w.payload.clone()),
+                        message: bytes_of(&w.payload),
                     })
                 }
             };
@@ -264,7 +319,7 @@ pub fn v3_to_lib(p: &RP) -> Option<v3::Packet> {
                     Some(u) => Some(astr(u)?),
                     None => None,
                 },
-                password: password.as_ref().map(|p| Bytes::from(p.clone())),
+                password: password.as_ref().map(|p| bytes_of(p)),
             })
         }
         RP::Connack { sp, code, props } => {
@@ -282,7 +337,7 @@ pub fn v3_to_lib(p: &RP) -> Option<v3::Packet> {
                 retain: *retain,
                 qos_pid: qospid(*qos, *pid)?,
                 topic_name: tname(topic)?,
-                payload: Bytes::from(payload.clone()),
+                payload: bytes_of(payload),
             })
         }
         RP::Ack { typ, pid, code, props } => {
@@ -602,7 +657,7 @@ impl<'a> PropBuilder<'a> {
     pub fn bin(&mut self, id: u8) -> Option<Option<Bytes>> {
         match self.take(id)? {
             None => Some(None),
-            Some(PV::Bin(s)) => Some(Some(Bytes::from(s.clone()))),
+            Some(PV::Bin(s)) => Some(Some(bytes_of(s))),
             _ => None,
         }
     }
@@ -886,7 +941,7 @@ pub fn v5_to_lib(p: &RP) -> Option<v5::Packet> {
                     qos: qos_from(w.qos)?,
                     retain: w.retain,
                     topic_name: tname(&w.topic)?,
-                    payload: Bytes::from(w.payload.clone()),
+                    payload: bytes_of(&w.payload),
                     properties: will_props_to(&w.props)?,
                 }),
             };
@@ -901,7 +956,7 @@ pub fn v5_to_lib(p: &RP) -> Option<v5::Packet> {
                     Some(u) => Some(astr(u)?),
                     None => None,
                 },
-                password: password.as_ref().map(|p| Bytes::from(p.clone())),
+                password: password.as_ref().map(|p| bytes_of(p)),
             })
         }
         RP::Connack { sp, code, props } => v5::Packet::Connack(v5::Connack {
@@ -914,7 +969,7 @@ pub fn v5_to_lib(p: &RP) -> Option<v5::Packet> {
             retain: *retain,
             qos_pid: qospid(*qos, *pid)?,
             topic_name: tname(topic)?,
-            payload: Bytes::from(payload.clone()),
+            payload: bytes_of(payload),
             properties: publish_props_to(props)?,
         }),
         RP::Ack { typ, pid, code, props } => {
